@@ -20,6 +20,7 @@
 #include <bit>
 #include <cstddef>
 #include <functional>
+#include <limits>
 #include <memory>
 #include <optional>
 #include <stdexcept>
@@ -167,6 +168,11 @@ struct MeshNodeStorage final : SlotObserver {
   // the pull after mesh-driven child evaluation.
   std::vector<MeshChildSchedule> child_schedule_queue{};
   int max_rank{0};
+  // Lowest rank among the children that became runnable (scheduled for this
+  // cycle, created, or paused) since the current settle pass materialized its
+  // order. A child ranked above it must wait for the next pass: one of its
+  // dependencies may still produce a result this cycle.
+  int pending_min_rank{std::numeric_limits<int>::max()};
   bool primed{false};
   // The instance whose child graph is currently being evaluated; a
   // mesh_subscribe inside it reads this as its "my_key" (the requester).
@@ -177,6 +183,12 @@ struct MeshNodeStorage final : SlotObserver {
     child_schedule_queue.push_back(schedule);
     std::push_heap(child_schedule_queue.begin(), child_schedule_queue.end(),
                    std::greater<>{});
+  }
+
+  void note_pending_rank(std::size_t slot) noexcept {
+    if (const MeshEntry *entry = entries.entry_at(slot); entry != nullptr) {
+      pending_min_rank = std::min(pending_min_rank, entry->rank);
+    }
   }
 
   void push_observed_child_schedule(DateTime when,
@@ -190,6 +202,7 @@ struct MeshNodeStorage final : SlotObserver {
       // them directly avoids two heap operations per child on broadcast
       // ticks while future deadlines still use the priority queue.
       evaluation_candidates.set(schedule.slot);
+      note_pending_rank(schedule.slot);
       return;
     }
     push_child_schedule(MeshChildSchedule{when, schedule.slot, false});
@@ -510,6 +523,7 @@ void add_mesh_evaluation_slot(MeshNodeStorage &storage, std::size_t slot) {
     return;
   }
   storage.evaluation_candidates.set(slot);
+  storage.note_pending_rank(slot);
 }
 
 void collect_all_mesh_evaluation_slots(MeshNodeStorage &storage) {
@@ -1064,7 +1078,9 @@ bool mesh_evaluate_impl(const void *, const NodeView &view,
     // Snapshot candidate slots by rank. add_dependency can create or re-rank
     // instances mid-pass, so the next pass rematerializes this order.
     materialize_mesh_evaluation_order(storage);
+    storage.pending_min_rank = std::numeric_limits<int>::max();
     bool evaluated = false;
+    bool deferred = false;
 
     for (const auto &ranked : storage.evaluation_order) {
       MeshEntry *entry = storage.entries.entry_at(ranked.second);
@@ -1077,6 +1093,15 @@ bool mesh_evaluate_impl(const void *, const NodeView &view,
       if (entry->settled_time == evaluation_time) {
         continue;
       } // already done this cycle
+      if (entry->rank > storage.pending_min_rank) {
+        // A lower-ranked child was scheduled, created or paused after this
+        // pass was ordered. It may be a dependency of this child (directly or
+        // through a chain), so evaluating now could read a result that is
+        // still going to change this cycle - and the child would then be
+        // skipped as settled when that tick arrives. Re-rank and resume.
+        deferred = true;
+        break;
+      }
 
       bind_instance_inputs(view, context, *entry, evaluation_time);
       bind_instance_output(view, context, *entry, evaluation_time);
@@ -1107,6 +1132,7 @@ bool mesh_evaluate_impl(const void *, const NodeView &view,
             entry->key.view());
       } else {
         entry->paused = true;
+        storage.note_pending_rank(ranked.second);
       } // a dependency was created / ranked; re-scan
       evaluated = true;
 
@@ -1154,7 +1180,7 @@ bool mesh_evaluate_impl(const void *, const NodeView &view,
     // the next pass even when no prior candidate evaluated.
     const bool added_during_pass =
         drain_due_mesh_schedules(storage, evaluation_time);
-    if (!evaluated && !added_during_pass) {
+    if (!evaluated && !added_during_pass && !deferred) {
       break;
     }
   }
